@@ -682,6 +682,121 @@ def check_axisangle_amplitude(ctx: Check, tree: Tree) -> None:
                 "axis-angle: amplitude = sum over all topology groups of PoolSum(alignment.expression * A^topology[helicities], *alignment.indices)", problems or None)
 
 
+def check_axisangle_structure(ctx: Check, tree: Tree) -> None:
+    """Further structural obligations of the axis-angle alignment (all in helicity/align/axisangle.py):
+    (a) formulate_rotation_chain returns the helicity rotations alone iff there is exactly one
+        (the particle is a direct child of the initial state), otherwise their product with the
+        Wigner rotation, whose summation index is the next free index name;
+    (b) define_symbols defines (alpha, beta, gamma) for exactly the final states whose parent is
+        not the initial state and merges every result;
+    (c) __multiply_pool_sums multiplies all summands and concatenates ALL index lists;
+    (d) get_opposite_helicity_sign is -1 iff the state is not the initial state and is the
+        opposite-helicity state, +1 otherwise."""
+    mod = "ampform.helicity.align.axisangle"
+    # (a)
+    fn = tree.func(f"{mod}::formulate_rotation_chain")
+    rd = RD(fn.node)
+    problems = []
+    rets = [r for r, _ in rd.returns if r.value is not None]
+    early = [r for r in rets if isinstance(r.value, ast.Name) and any(d.value is not None and "formulate_helicity_rotation_chain(" in unparse(d.value) for d in rd.reaching(r.value))]
+    if len(early) != 1:
+        problems.append("no early return of the bare helicity rotations")
+    else:
+        guards = [a for a in ancestors(early[0]) if isinstance(a, ast.If)]
+        name = early[0].value.id
+        t = guards[0].test if len(guards) == 1 else None
+        ok_t = (isinstance(t, ast.Compare) and len(t.ops) == 1 and isinstance(t.ops[0], ast.Eq) and isinstance(t.comparators[0], ast.Constant) and t.comparators[0].value == 1
+                and unparse(t.left).replace(" ", "") == f"len({name}.indices)")
+        if not ok_t:
+            problems.append(f"the bare helicity rotations are returned under `{unparse(t) if t is not None else '?'}`, not iff there is exactly one rotation")
+    final = [r for r in rets if r not in early]
+    if len(final) != 1 or not (isinstance(final[0].value, ast.Call) and "__multiply_pool_sums" in unparse(final[0].value.func)):
+        problems.append("the general case does not return the product of helicity rotations and Wigner rotation")
+    else:
+        txt = " ".join(unparse(d.value) for d in rd.closure(rd.uses(final[0].value)) if isinstance(d.value, ast.AST)) + unparse(final[0].value)
+        if "formulate_wigner_rotation(" not in txt or "formulate_helicity_rotation_chain(" not in txt:
+            problems.append("the product does not contain both the helicity rotations and the Wigner rotation")
+        wr = [c for c in walk_function(fn.node) if isinstance(c, ast.Call) and unparse(c.func).endswith("formulate_wigner_rotation")]
+        if len(wr) == 1:
+            mp = next((k.value for k in wr[0].keywords if k.arg == "m_prime"), None)
+            mtxt = " ".join(unparse(d.value) for d in rd.closure(rd.uses(mp)) if isinstance(d.value, ast.AST)) if mp is not None else ""
+            if early and f"__GREEK_INDEX_NAMES[len({early[0].value.id}.indices)]" not in mtxt.replace(" ", "").replace("len(", "len(") and "__GREEK_INDEX_NAMES[len(" not in mtxt:
+                problems.append("the Wigner rotation's summation index is not the next free index name")
+    ctx.verdict(not problems, "R-WIRING", f"{fn.qual}::wigner-iff-nested", tree.loc(fn.node),
+                "formulate_rotation_chain: one helicity rotation -> returned alone; more -> times the Wigner rotation with the next free summation index", problems or None)
+    # (b)
+    fn = tree.func(f"{mod}::AxisAngleAlignment.define_symbols")
+    rd = RD(fn.node)
+    problems = []
+    calls = [c for c in walk_function(fn.node) if isinstance(c, ast.Call) and unparse(c.func).endswith("compute_wigner_angles")]
+    if len(calls) != 1:
+        raise AnalysisError(f"{fn.qual}: expected one call of compute_wigner_angles")
+    c = calls[0]
+    returned = {n.id for r, _ in rd.returns if r.value is not None for n in ast.walk(r.value) if isinstance(n, ast.Name)}
+    merged = False
+    for d in rd.defs:
+        if d.value is c:
+            for node in walk_function(fn.node):
+                if isinstance(node, ast.Call) and isinstance(node.func, ast.Attribute) and node.func.attr == "update" and isinstance(node.func.value, ast.Name) and node.func.value.id in returned:
+                    if any(isinstance(n, ast.Name) and d in rd.reaching(n) for a_ in node.args for n in ast.walk(a_)):
+                        merged = True
+    for a in ancestors(c):
+        if isinstance(a, ast.Call) and isinstance(a.func, ast.Attribute) and a.func.attr == "update" and isinstance(a.func.value, ast.Name) and a.func.value.id in returned:
+            merged = True
+    if not merged:
+        problems.append("the angles returned by compute_wigner_angles are not merged into the returned dictionary")
+    sid = c.args[2] if len(c.args) > 2 else None
+    stexts = [unparse(d.value) for d in rd.closure(rd.uses(sid)) if isinstance(d.value, ast.AST)] + [unparse(d.node.iter) for d in rd.closure(rd.uses(sid)) if d.kind == "for" and isinstance(d.node, ast.For)] if sid is not None else []
+    filt = None
+    for node in walk_function(fn.node):
+        if isinstance(node, (ast.SetComp, ast.ListComp, ast.GeneratorExp)) and any("get_parent_id" in unparse(i) for g in node.generators for i in g.ifs):
+            filt = node
+    if filt is None:
+        problems.append("the rotated states are not selected by their parent (get_parent_id)")
+    else:
+        g = filt.generators[0]
+        cond = next(i for i in g.ifs if "get_parent_id" in unparse(i))
+        ok_c = isinstance(cond, ast.Compare) and len(cond.ops) == 1 and isinstance(cond.ops[0], ast.NotEq) and unparse(cond.comparators[0]) in {"-1"} and "outgoing_edge_ids" in unparse(g.iter)
+        if not ok_c:
+            problems.append(f"selection `{unparse(cond)}` over `{unparse(g.iter)}` is not: final states whose parent is not the initial state")
+    ctx.verdict(not problems, "R-WIRING", f"{fn.qual}::defines-nested-final-states", tree.loc(fn.node),
+                "AxisAngleAlignment.define_symbols: Wigner angles for every final state whose parent is not the initial state, all merged into the result", problems or None)
+    # (c)
+    fn = tree.func(f"{mod}::__multiply_pool_sums")
+    rd = RD(fn.node)
+    problems = []
+    param = fn.params[0]
+    rets = [r for r, _ in rd.returns if r.value is not None]
+    if len(rets) != 1 or not (isinstance(rets[0].value, ast.Call) and unparse(rets[0].value.func).endswith("PoolSum") and len(rets[0].value.args) == 2 and isinstance(rets[0].value.args[1], ast.Starred)):
+        problems.append("does not return PoolSum(product, *indices)")
+    else:
+        prod, idx = rets[0].value.args[0], rets[0].value.args[1].value
+        ptxt = " ".join([unparse(prod)] + [unparse(d.value) for d in rd.closure(rd.uses(prod)) if isinstance(d.value, ast.AST)])
+        if not ("sp.Mul(*" in ptxt and ".expression" in ptxt and f"in {param}" in ptxt):
+            problems.append("the summand is not the product of the summands of all factors")
+        ext = [n for n in walk_function(fn.node) if isinstance(n, ast.Call) and isinstance(n.func, ast.Attribute) and n.func.attr in {"extend"} and isinstance(idx, ast.Name) and unparse(n.func.value) == idx.id]
+        ok_e = len(ext) == 1 and unparse(ext[0].args[0]).endswith(".indices") and any(isinstance(a, ast.For) and unparse(a.iter) == param for a in ancestors(ext[0])) and not any(isinstance(a, ast.If) for a in ancestors(ext[0]) if any(a is x for x in ast.walk(fn.node)) and a is not fn.node)
+        if not ok_e:
+            problems.append("the index lists of all factors are not concatenated unconditionally")
+    ctx.verdict(not problems, "R-WIRING", f"{fn.qual}::product-of-sums", tree.loc(fn.node), "__multiply_pool_sums: PoolSum(product of all summands, *indices of all factors)", problems or None)
+    # (d)
+    fn = tree.func(f"{mod}::get_opposite_helicity_sign")
+    problems = []
+    ifs = [n for n in walk_function(fn.node) if isinstance(n, ast.If)]
+    rets_all = [r for r in walk_function(fn.node) if isinstance(r, ast.Return)]
+    ok_d = False
+    if len(ifs) == 1 and len(rets_all) == 2:
+        t = ifs[0].test
+        ops = t.values if isinstance(t, ast.BoolOp) and isinstance(t.op, ast.And) else [t]
+        opp = [o for o in ops if isinstance(o, ast.Call) and unparse(o.func).endswith("is_opposite_helicity_state") and [unparse(a) for a in o.args] == fn.params[:2]]
+        rest = [o for o in ops if o not in opp]
+        rest_ok = all(isinstance(o, ast.Compare) and len(o.ops) == 1 and isinstance(o.ops[0], ast.NotEq) and unparse(o.left) == fn.params[1] and unparse(o.comparators[0]) == "-1" for o in rest)
+        inner = [r for r in ifs[0].body if isinstance(r, ast.Return)]
+        outer = [r for r in rets_all if r not in inner]
+        ok_d = len(opp) == 1 and rest_ok and len(inner) == 1 and unparse(inner[0].value) == "-1" and len(outer) == 1 and unparse(outer[0].value) == "1"
+    ctx.verdict(ok_d, "R-WIRING", f"{fn.qual}::sign", tree.loc(fn.node), "get_opposite_helicity_sign: -1 iff the state is the opposite-helicity state (and not the initial state), else +1")
+
+
 def run(ctx: Check, tree: Tree) -> None:
     ctx.decided += [
         "no `.remove(x)` reachable in the package can raise: each is dominated by a membership test, inside a handler, or covered by a recorded structural invariant (R-GUARD)",
@@ -705,5 +820,6 @@ def run(ctx: Check, tree: Tree) -> None:
     ctx.section(check_rotation_chain_order, ctx, tree)
     ctx.section(check_wigner_angle_table, ctx, tree)
     ctx.section(check_axisangle_amplitude, ctx, tree)
+    ctx.section(check_axisangle_structure, ctx, tree)
     ctx.section(check_dpd_summand, ctx, tree)
     ctx.section(check_spin_range_not_cached_mutable, ctx, tree)
